@@ -12,6 +12,13 @@ from .thir import callee_of
 NODE_VISITOR = "process::visitors::NodeVisitor"
 NODE_POST_VISITOR = "process::post_visitor::NodePostVisitor"
 NODE_PROCESSOR = "process::node_processor::NodeProcessor"
+NODE_POST_PROCESSOR = "process::node_processor::NodePostProcessor"
+
+STD_MUTATORS = {
+    "push", "insert", "remove", "clear", "retain", "retain_mut", "take", "replace", "truncate", "pop", "drain",
+    "swap", "extend", "append", "push_str", "sort", "sort_by", "sort_by_key", "dedup", "split_off", "resize",
+    "swap_remove", "set", "push_front", "push_back", "pop_front", "pop_back", "entry", "get_or_insert_with",
+}
 
 
 def impl_methods(crate, trait_path, self_ty_prefix):
@@ -72,6 +79,75 @@ class Family:
                 if c not in seen_set and c in self.crate.fns:
                     stack.append(c)
         return seen
+
+    def closure_from(self, roots):
+        seen, seen_set, stack = [], set(), list(roots)
+        while stack:
+            p = stack.pop()
+            if p in seen_set:
+                continue
+            fn = self.crate.fns.get(p)
+            if fn is None or not thir.body_of(fn):
+                continue
+            seen_set.add(p)
+            seen.append(p)
+            for n in thir.fn_refs(fn):
+                c = self.bind(callee_of(n))
+                if c not in seen_set and c in self.crate.fns:
+                    stack.append(c)
+        return seen
+
+    def proc_scope(self):
+        """Functions reachable from the processor's own callbacks only (no visitor code)."""
+        if not hasattr(self, "_proc_scope"):
+            self._proc_scope = self.closure_from(sorted(self.proc_over.values()))
+        return self._proc_scope
+
+    def callback_scope(self, trait_item):
+        return self.closure_from([self.proc_over[trait_item]]) if trait_item in self.proc_over else []
+
+    def written(self, scope=None):
+        """{(adt, slot)} that some function of `scope` writes: target of an assignment, receiver of a std
+        container mutator, or receiver of a local `&mut self` method that (transitively) writes."""
+        scope = scope if scope is not None else self.proc_scope()
+        crate = self.crate
+        MUT = STD_MUTATORS
+        # local mutating functions (fixpoint)
+        mutating = set()
+        changed = True
+        bodies = {p: list(thir.walk(thir.body_of(crate.fns[p]))) for p in scope}
+        while changed:
+            changed = False
+            for p in scope:
+                if p in mutating:
+                    continue
+                for n in bodies[p]:
+                    k = n.get("k")
+                    if k in ("Assign", "AssignOp") and n["l"].get("k") in ("Deref", "Field", "Index"):
+                        mutating.add(p); changed = True; break
+                    if k == "Call" and "fn" in n:
+                        c = self.bind(callee_of(n))
+                        if (c not in crate.fns and n.get("fname") in MUT) or c in mutating:
+                            mutating.add(p); changed = True; break
+        out = {}
+        for p in scope:
+            a = self.an.fa(p)
+            if a is None:
+                continue
+            for n in bodies[p]:
+                k = n.get("k")
+                orig = None
+                if k in ("Assign", "AssignOp") and n["l"].get("k") in ("Deref", "Field", "Index"):
+                    orig = a.origins(n["l"])
+                elif k == "Call" and "fn" in n and n["args"]:
+                    c = self.bind(callee_of(n))
+                    if (c not in crate.fns and n.get("fname") in MUT) or c in mutating:
+                        orig = a.origins(n["args"][0])
+                if orig:
+                    for o in orig:
+                        if o[0] != "#param":
+                            out.setdefault(o, []).append((p, n.get("ln")))
+        return out
 
     def touched(self, qualifies):
         """{(adt, slot): [(fn path, callee, line)]} over the whole scope."""
